@@ -9,6 +9,7 @@ import (
 	"os/exec"
 	"runtime"
 	"runtime/debug"
+	"strconv"
 	"strings"
 	"sync"
 	"syscall"
@@ -257,13 +258,13 @@ func (w *Worker) Do(job *WJob, timeout time.Duration) WOutcome {
 			return WOutcome{Harness: "bad worker answer: " + err.Error() + ": " + truncate(string(r.line), 200)}
 		}
 		return WOutcome{Res: &res}
-	case <-time.After(timeout):
-		st := ""
+	case why := <-w.watch(timeout):
+		st := why
 		if w.cmd != nil && w.cmd.Process != nil {
 			// ask the runtime for a goroutine dump, then kill
 			_ = w.cmd.Process.Signal(syscall.SIGQUIT)
 			time.Sleep(300 * time.Millisecond)
-			st = w.stderr.String()
+			st += w.stderr.String()
 		}
 		w.Kill()
 		return WOutcome{Timeout: true, Stderr: st}
@@ -296,3 +297,49 @@ func docJSON(doc any) json.RawMessage {
 }
 
 var _ = val.JSON
+
+// workerRSSLimit is the resident set size (bytes) beyond which a child counts as having run away.
+var workerRSSLimit = func() int64 {
+	if v, err := strconv.ParseInt(os.Getenv("VERIF_CHILD_RSS_MB"), 10, 64); err == nil && v > 0 {
+		return v << 20
+	}
+	return 3 << 30
+}()
+
+// watch fires when the job has neither answered within timeout nor kept its memory within bounds
+// (a child that grows without limit is stopped early so that it cannot take the machine down).
+func (w *Worker) watch(timeout time.Duration) <-chan string {
+	ch := make(chan string, 1)
+	pid := 0
+	if w.cmd != nil && w.cmd.Process != nil {
+		pid = w.cmd.Process.Pid
+	}
+	go func() {
+		deadline := time.Now().Add(timeout)
+		for time.Now().Before(deadline) {
+			time.Sleep(50 * time.Millisecond)
+			if rss := rssOf(pid); rss > workerRSSLimit {
+				ch <- fmt.Sprintf("no answer yet and the resident set of the child grew to %d MiB (limit %d MiB)\n", rss>>20, workerRSSLimit>>20)
+				return
+			}
+		}
+		ch <- ""
+	}()
+	return ch
+}
+
+func rssOf(pid int) int64 {
+	if pid <= 0 {
+		return 0
+	}
+	b, err := os.ReadFile(fmt.Sprintf("/proc/%d/statm", pid))
+	if err != nil {
+		return 0
+	}
+	f := strings.Fields(string(b))
+	if len(f) < 2 {
+		return 0
+	}
+	pages, _ := strconv.ParseInt(f[1], 10, 64)
+	return pages * int64(os.Getpagesize())
+}
